@@ -7,7 +7,10 @@ Decided structural clauses:
     regularization_matrix, the unregularised case uses the plain least-squares solve; both implementations agree
  D3 the smoothing / Opticom matrices are symmetric by construction (paired stores in triangular loops)
  D4 every coefficient-optimisation variant stores entries divided by the sum of all entries
-Not decided: smoothing matrix == gradient Gram matrix, positive semi-definiteness, design-matrix values."""
+ D5 uniform-grid gradient Gram factors as polynomial identities (h = 2^-l): stiffness 2/h = 2^(l+1) for identical hats and
+    -1/h = -2^l for neighbours in the differentiated dimension, mass 2h/3 = 1/(3*2^(l-1)) and h/6 = 1/(12*2^(l-1)) in the
+    others, 0 for disjoint supports
+Not decided: smoothing matrix == gradient Gram matrix on non-uniform grids, positive semi-definiteness, design-matrix values."""
 import ast
 import os
 
@@ -396,6 +399,9 @@ def run(prog, ctx):
             n3 += 1
     ctx.floor("C20.D3", n3, 4, "triangular-loop matrix stores")
 
+    # ------------------------------------------------------------------ D5
+    check_uniform_gradient_gram(prog, ctx)
+
     # ------------------------------------------------------------------ D4
     n4 = 0
     for name, fi in sorted(reg.methods.items()):
@@ -489,3 +495,48 @@ def _normalised(fi, s):
                 return True, "%s = %s / sum(%s)" % (X, X, X)
         return False, "`%s` reaches the store un-normalised (last definition: %s)" % (X, src(b.stmt))
     return False, "unrecognised stored value %s" % src(v)
+
+
+def check_uniform_gradient_gram(prog, ctx):
+    from ..absint import poly_of_term, Poly
+    fi = prog.func(REG + ".build_C_matrix")
+    ctx.touch(fi)
+    tm = Terms(fi.node, max_depth=0)
+    c = cfg_of(fi)
+    lv = fi.params[1]
+    found = {"stiff-same": [], "stiff-nb": [], "mass-same": [], "mass-nb": []}
+    for n in c.nodes:
+        if n.kind == "stmt" and isinstance(n.ast, ast.AugAssign) and isinstance(n.ast.op, ast.Mult) and isinstance(n.ast.target, ast.Name) \
+                and n.ast.target.id == "temp_res" and n.idx in c.reachable():
+            guards = [g for (g, gn) in R.dominating_guards(fi, n, tm) if gn.kind == "test" and n.loops and c.in_loop(gn, n.loops[-1])]
+            diff_dim = any(g[0] == "cmp" and g[1] == "Eq" and {g[2], g[3]} == {("n", "m"), ("n", "k")} for g in guards)
+            same = any(g[0] == "cmp" and g[1] == "Eq" and {g[2], g[3]} == {("n", "index_im"), ("n", "index_jm")} for g in guards)
+            key = ("stiff-" if diff_dim else "mass-") + ("same" if same else "nb")
+            found[key].append((n, poly_of_term(tm.term(n.ast.value))))
+    L = ("s", ("n", lv), ("n", "k"))
+    two = ("c", "2")
+    half_l = ("op", "Pow", (two, ("op", "Sub", (L, ("c", "1")))))
+
+    def inv(m):
+        return poly_of_term(("op", "Div", (("c", "1"), ("op", "Mult", (("c", str(m)), half_l)))))
+    want = {
+        "stiff-same": poly_of_term(("op", "Pow", (two, ("op", "Add", (("c", "1"), L))))),
+        "stiff-nb": poly_of_term(("neg", ("op", "Pow", (two, L)))),
+        "mass-same": inv(3),
+        "mass-nb": inv(12),
+    }
+    problems = []
+    for k, lst in found.items():
+        if not lst:
+            problems.append("case %s not found" % k)
+        for (n, p_) in lst:
+            if p_ != want[k]:
+                problems.append("%s factor `%s` differs from the hat-function integral" % (k, src(n.ast.value)))
+    ctx.check(not problems, "C20.D5", R.key_of(fi, "uniform-gradient-gram"), fi.loc(),
+              "stiffness factors 2^(l+1) / -2^l and mass factors 1/(3*2^(l-1)) / 1/(12*2^(l-1)) per dimension",
+              "uniform smoothing matrix: " + "; ".join(problems))
+    # one term per differentiated dimension is summed
+    ok = any(isinstance(n.ast, ast.AugAssign) and isinstance(n.ast.op, ast.Add) and isinstance(n.ast.target, ast.Name) and n.ast.target.id == "res"
+             and tm.term(n.ast.value) == ("n", "temp_res") for n in c.nodes if n.kind == "stmt")
+    ctx.check(ok, "C20.D5", R.key_of(fi, "sum-over-dimensions"), fi.loc(), "the entry is the sum over the differentiated dimension of the per-dimension products",
+              "build_C_matrix no longer sums the per-dimension products into the entry")
